@@ -166,4 +166,60 @@ theorem pyRepeat_nonpos (s : List Nat) (n : Int) (h : n ≤ 0) : pyRepeat s n = 
   have : n.toNat = 0 := by omega
   simp [pyRepeat, this, repeatSeq]
 
+/-! ## binary operators on int / bool operands -/
+
+theorem foldBinInt_sound (op : Op) (bb : Option (Bool × Bool)) (l r : Int) (res : Res) :
+    foldBinInt op bb l r = some res → pyBinInt op bb l r = .ok res := by
+  intro h
+  cases op <;> simp only [foldBinInt, pyBinInt] at h ⊢
+  case add | sub | mul => injection h with h; subst h; rfl
+  case truediv | floordiv | mod =>
+    split at h
+    · rename_i hc; injection h with h; subst h; simp [hc]
+    · cases h
+  case band | bor | bxor =>
+    split at h <;> (injection h with h; subst h; rfl)
+  case lshift | rshift | pow =>
+    split at h
+    · rename_i hc; injection h with h; subst h
+      have : ¬ r < 0 := by omega
+      simp [this]
+    · cases h
+  case matmul => cases h
+
+theorem foldBinInt_complete (op : Op) (bb : Option (Bool × Bool)) (l r : Int) (v : Val) :
+    pyBinInt op bb l r = .ok (.val v) → foldBinInt op bb l r = some (.val v) := by
+  intro h
+  cases op <;> simp only [foldBinInt, pyBinInt] at h ⊢
+  case add | sub | mul => injection h with h; rw [h]
+  case truediv =>
+    split at h <;> cases h
+  case floordiv | mod =>
+    split at h
+    · cases h
+    · rename_i hc; injection h with h; simp [hc, h]
+  case band | bor | bxor =>
+    split at h <;> (injection h with h; rw [h])
+  case lshift | rshift =>
+    split at h
+    · cases h
+    · rename_i hc; injection h with h
+      have : r ≥ 0 := by omega
+      simp [this, h]
+  case pow =>
+    split at h
+    · split at h <;> cases h
+    · rename_i hc; injection h with h
+      have : r ≥ 0 := by omega
+      simp [this, h]
+  case matmul => cases h
+
+
+theorem ite_ok {c : Prop} [Decidable c] {x v : Val}
+    (h : (if c then PyRes.ok (.val x) else PyRes.raises .overflowError) = PyRes.ok (.val v)) : x = v := by
+  split at h
+  · injection h with h; injection h
+  · cases h
+
+
 end Fold
